@@ -178,7 +178,7 @@ func storeDump(s *metrics.Store) map[string]string {
 var deadline = 30 * time.Second
 
 func runCase(c tcase) map[string]any {
-	dir, err := os.MkdirTemp("", "c19-")
+	dir, err := os.MkdirTemp(scratchRoot(), "c19-")
 	if err != nil {
 		vh.Fatal("%v", err)
 	}
@@ -335,6 +335,15 @@ func runCase(c tcase) map[string]any {
 	sort.Strings(diff)
 	res["store_diff"] = diff
 	return res
+}
+
+// scratchRoot: temporary files live under the working directory (the check's scratch directory, removed
+// when the check exits - also if this process is killed by a panic inside mtail), not under /tmp.
+func scratchRoot() string {
+	if wd, err := os.Getwd(); err == nil {
+		return wd
+	}
+	return ""
 }
 
 func main() {
